@@ -142,6 +142,40 @@ def dephasing_rate_matrix(w):
     return g
 
 
+def dephasing_generator(gamma):
+    """Super-operator of element-wise dephasing rho_ab -> -gamma_ab rho_ab for an arbitrary rate
+    matrix (row-major vectorisation: a diagonal matrix).  For gamma = dephasing_rate_matrix(w) it
+    equals dissipator(dephasing_jumps(w), d)."""
+    g = numpy.asarray(gamma, dtype=float)
+    return numpy.diag(-g.reshape(-1)).astype(complex)
+
+
+def valid_rate_matrix(gamma, tol=1e-12):
+    """Finite, real, symmetric, non-negative, zero diagonal."""
+    g = numpy.asarray(gamma)
+    if g.ndim != 2 or g.shape[0] != g.shape[1] or not numpy.all(numpy.isfinite(g)):
+        return False
+    if numpy.iscomplexobj(g) and float(numpy.max(numpy.abs(g.imag))) > 0.0:
+        return False
+    g = g.real
+    sc = max(1.0, float(numpy.max(numpy.abs(g))))
+    return bool(numpy.max(numpy.abs(g - g.T)) <= tol * sc and numpy.min(g) >= -tol * sc
+                and numpy.max(numpy.abs(numpy.diag(g))) <= tol * sc)
+
+
+def is_conditionally_negative(gamma, tol=1e-12):
+    """Schoenberg: the element-wise map rho_ab -> exp(-gamma_ab s) rho_ab is positive for every
+    s >= 0 exactly when the symmetric zero-diagonal matrix gamma is conditionally negative
+    definite (x^T gamma x <= 0 for all x with sum(x) = 0).  Then element-wise dephasing with the
+    rates gamma (or gamma*t) is a completely positive trace preserving semigroup (family) and
+    positivity of the exact dynamics is a theorem; gamma_ab = (w_a + w_b)/2 is of this kind."""
+    g = numpy.asarray(gamma, dtype=float)
+    d = g.shape[0]
+    P = numpy.eye(d) - numpy.ones((d, d)) / d
+    ev = numpy.linalg.eigvalsh(P @ (0.5 * (g + g.T)) @ P)
+    return bool(ev[-1] <= tol * max(1.0, float(numpy.max(numpy.abs(g)))))
+
+
 def liouvillian(H, jumps=(), w=None):
     H = numpy.asarray(H, dtype=complex)
     d = H.shape[0]
